@@ -140,6 +140,8 @@ func C10(e *Env) {
 		}
 	}
 	wiringC10(e)
+	c09FindFiles(e, "R10.8")
+	r.Rule("R10.8", "'a file matched by two patterns' is detected on cleaned paths: every matched path is filepath.Clean'ed before it is used as the bookkeeping key (shared with R09.3), so two spellings of one file are one key", 4)
 	r.NotCovered = append(r.NotCovered,
 		"atomicity of os.WriteFile under an I/O error in mid-write",
 		"cobra's flag parsing and its own error printing (SilenceErrors/SilenceUsage are checked to be set)",
@@ -503,8 +505,8 @@ func c10Verbose(e *Env) {
 			v := ret.Results[0]
 			if isNilConst(v) {
 				// must be the inactive path: dominated by a test of the active field
-				ok := dominatedByFieldTest(fn, ret, "active")
-				r.Check(ok, "R10.4", key+"#nil-return-only-when-inactive", "a nil return must be guarded by the active flag being false", e.P.Pos(ret.Pos()))
+				ok := dominatedByFieldTest(fn, ret, "active") || successEdge(fn, perr, ret) || successEdgeViaCell(fn, perr, ret)
+				r.Check(ok, "R10.4", key+"#nil-return-only-when-inactive", "a nil return must be guarded by the active flag being false (or by the decorated step's error being nil)", e.P.Pos(ret.Pos()))
 				continue
 			}
 			direct := ts.has(v) && !passesThroughCall(v, ts)
@@ -964,4 +966,36 @@ func c10Printing(e *Env) {
 	})
 	r.Hold("R10.7", "module#no-direct-printing", fmt.Sprintf("%d call expressions outside package main scanned for process-stream printing", n))
 	_ = token.NoPos
+}
+
+// successEdgeViaCell: like successEdge, for an error that lives in a local cell written by a closure
+// (err is assigned inside func(){…}() and tested after it): the tested value is a load of the cell
+// the error was stored into.
+func successEdgeViaCell(fn *ssa.Function, errv ssa.Value, ins ssa.Instruction) bool {
+	// cells that receive errv (in fn or its closures)
+	cells := map[ssa.Value]bool{}
+	bind := freeVarBindings(fn)
+	allInstrs(fn, func(_ *ssa.Function, in ssa.Instruction) {
+		if st, ok := in.(*ssa.Store); ok && st.Val == errv {
+			cells[cellOf(st.Addr, bind)] = true
+		}
+	})
+	for _, b := range fn.Blocks {
+		iff, ok := b.Instrs[len(b.Instrs)-1].(*ssa.If)
+		if !ok {
+			continue
+		}
+		v, nonNilOnTrue, ok := nilTest(iff.Cond)
+		if !ok {
+			continue
+		}
+		ld, ok := v.(*ssa.UnOp)
+		if !ok || !cells[cellOf(ld.X, bind)] {
+			continue
+		}
+		if edgeDominates(b, !nonNilOnTrue, ins) {
+			return true
+		}
+	}
+	return false
 }
